@@ -655,9 +655,59 @@ def match_finding(finding, failure):
     return False
 
 
+class ArgsMerge(vlib.Stream):
+    """the merge through the command-line entry point: process_and_fetch(args) gives what fetching the individually
+    interpreted arguments in order gives - also when an argument occurs again after another one (the last definition wins,
+    a repeated instance of a .multiple parameter collapses onto the later copy).  Oracle only."""
+    name = "args_merge"
+    cluster = "Fetch"
+    MASTER = "x = 0\n  .type = int\nflag = False\n  .type = bool\ngrp {\n  m = None\n    .type = int\n    .multiple = True\n  t = a\n    .type = str\n}\n"
+
+    def __init__(self, ctx):
+        super().__init__(ctx)
+        self.fp = vlib.import_freephil()
+
+    def cases(self, rng, tier):
+        pool = ["x=1", "x=2", "grp.m=1", "grp.m=2", "grp.m=3", "t=p", "t=q", "flag=True", "flag=False", "x=1", "grp.t=p"]
+        for _ in range(150 if tier == "quick" else 2000):
+            args = [rng.choice(pool) for _ in range(rng.randint(2, 5))]
+            if rng.random() < 0.6:
+                args.append(rng.choice(args))            # an argument repeated verbatim
+            yield args
+
+    def impl(self, case):
+        fp = self.fp
+        m = fp.parse(self.MASTER)
+
+        def vals(w):
+            e = w.extract()
+            return [e.x, e.flag, list(e.grp.m), e.grp.t]
+        try:
+            ai = m.command_line_argument_interpreter()
+            got = vals(ai.process_and_fetch(args=case))
+            want = vals(m.fetch(sources=[ai.process(arg=a) for a in case]))
+        except (RuntimeError, fp.Sorry) as e:
+            return ["refused", exc_class(e)]
+        return ["ok", got, want]
+
+    def requests(self, case, o):
+        return []
+
+    def model(self, case, replies, o):
+        return o
+
+    def prop(self, case, o):
+        if o[0] == "ok" and o[1] != o[2]:
+            return "process_and_fetch(%r) gives %r, fetching the interpreted arguments in order gives %r" % (case, o[1], o[2])
+        return None
+
+    def tag(self, case, o):
+        return o[0]
+
+
 SPEC = {
     "clusters": ["Fetch"],
-    "streams": [MergeRules, Meta],
+    "streams": [MergeRules, Meta, ArgsMerge],
     "rule": "masters as for C04 (7-name pool, every non-float built-in type, .multiple/.optional in all combinations incl. further master "
             "occurrences and multiples nested in multiple scopes, deprecated, disabled, depth <= 3; float types in a minority) x 0-4 sources "
             "generated from the master's paths in abstract form with the 'merge' profile (repeated assignments 30 %, hits 50 %, plus misspelt / "
